@@ -18,6 +18,7 @@ Four kinds of observation (see harness/cmd/c11):
 -/
 import Pandora.Model.C11Sharing
 import Pandora.Model.C11Table
+import Pandora.Model.C11Own
 import Pandora.Gen.Locks
 
 namespace Pandora.Spec.C11
@@ -176,6 +177,45 @@ def modelGuns (n : Nat) : GunsObs :=
     maxoverlap := (guns.map fun g => active g s1.insts).foldl max 0,
     maxgoroutines := if n == 0 then 0 else 1 }
 
+/-! ### hand-over of samples (mode=handover) -/
+
+structure HandoverObs where
+  shots : Nat
+  reports : Nat
+  /-- per sample object what the gun did with it: a word over T (take from the pool), W (write), G (give = Report) -/
+  words : List (String × Nat)
+
+/-- the gun's side of a sample's life as a program of the ownership model (the sample is object 0 with token 0) -/
+def wordOps (w : String) : List OOp :=
+  w.toList.filterMap fun c =>
+    if c == 'T' then some (.take 0) else if c == 'W' then some (.own ⟨0, true, 0⟩) else if c == 'G' then some (.give 0) else none
+
+/-- a sample handed to the aggregator belongs to the aggregator (which reads it on its own goroutine and returns it
+to the sample pool): the gun's program on every sample must satisfy the ownership discipline `progOk` of
+`Model/C11Own.lean` — the hypothesis of `C11_drf_handover_programs` -/
+def judgeHandover (o : HandoverObs) : String :=
+  match o.words.find? (fun (w, _) => !progOkB (fun _ => Class.sharedSync 0) 0 [] (wordOps w)) with
+  | none => "ok"
+  | some (w, n) =>
+    if (w.toList.filter (· == 'G')).length > 1 then
+      s!"fail:double-report:{n} sample(s) handed to the aggregator more than once (gun-side life of the sample: {w})"
+    else s!"fail:use-after-report:{n} sample(s) written after Report (gun-side life of the sample: {w})"
+
+/-- samples one shot reports: plain guns one; a scenario gun one per executed step — the steps up to and including the
+first failing one (a step that cannot reach the target or whose response body breaks off fails; a 5xx answer is not a
+failure) -/
+def reportsPerShot (kind fail : String) (steps failat : Nat) : Nat :=
+  if kind == "httpscen" || kind == "grpcscen" then
+    if fail == "none" || fail == "status" then steps
+    else if fail == "conn" then 1
+    else failat
+  else 1
+
+/-- does any request of a run reach the target? not when the target is down, nor when the first step of the (only)
+scenario fails before it is sent -/
+def servedExpected (fail : String) (failat : Nat) : Bool :=
+  !(fail == "conn" || (failat == 1 && fail ∈ ["tmpl", "pre", "call", "payload"]))
+
 structure ConcObs where
   fatal : String
   detector : String
@@ -187,6 +227,9 @@ def judgeConc (tbl : List C11LockRow) (objs : List String) (o : ConcObs) : Strin
   else match judgeLocks tbl objs with
     | "ok" => if o.detector != "on" then "skip:detector-off" else "ok"
     | v => v
+
+def schedDoAt := ["core/schedule.doAtSchedule.start", "core/schedule.doAtSchedule.i", "core/schedule.StartSync.started"]
+def schedCallback := ["core/coreutil.callbackOnFinishSchedule.onFinish", "core/coreutil.callbackOnFinishSchedule.Schedule"]
 
 /-- the lock-table objects behind each object of `mode=hammer` -/
 def hammerLocks : String → List String
@@ -202,6 +245,11 @@ def hammerLocks : String → List String
   | "nextid" => ["components/providers/base.ProviderBase.idCounter"]
   | "samplepool" => ["core/aggregator/netsample.samplePool"]
   | "dnscache" => ["lib/netutil.SimpleDNSCache.hostToAddr"]
+  | "schedonce" => schedDoAt ++ schedCallback
+  | "schedline" => schedDoAt ++ schedCallback
+  | "schedunlim" => ["core/schedule.unlimitedSchedule.finish", "core/schedule.StartSync.started"] ++ schedCallback
+  | "schedcomp" => ["core/schedule.compositeSchedule.scheds", "core/schedule.compositeSchedule.leftAfter",
+      "core/schedule.compositeSchedule.started", "core/schedule.unlimitedSchedule.finish"] ++ schedDoAt ++ schedCallback
   | _ => []
 
 def judgeTable (tbl : List C11LockRow) : String :=
